@@ -91,4 +91,23 @@ theorem canCreate_shape :
       ["len(filteredIndexes) == 0", "len(matchedSet) == 0", "len(matchedValue.Branch) > longest",
        "len(matchedValue.Branch) >= longest"] := by decide
 
+/-- `addGo` / `removeGo` / `stepTrie`+`finish`: the branch conditions of `MatchNode.Add`, `Remove`
+(incl. the parent merge only when the parent has no data of its own) and `Match` -/
+theorem trie_shape :
+    Gen.BranchControl.addConds =
+      ["remainingRootSortOrders[0] == sortOrder",
+       "len(remainingRootSortOrders) > 1 && i < allSortOrdersMaxIndex",
+       "len(remainingRootSortOrders) > 1 && i == allSortOrdersMaxIndex",
+       "len(remainingRootSortOrders) == 1 && i < allSortOrdersMaxIndex", "ok"] ∧
+    Gen.BranchControl.removeConds =
+      ["remainingRootSortOrders[0] == sortOrder",
+       "len(remainingRootSortOrders) > 1 && i < allSortOrdersMaxIndex",
+       "len(remainingRootSortOrders) > 1 && i == allSortOrdersMaxIndex",
+       "len(remainingRootSortOrders) == 1 && i < allSortOrdersMaxIndex", "ok",
+       "root.Data != nil", "len(root.Children) == 1", "len(root.Children) == 0", "rootParent != nil",
+       "len(rootParent.Children) == 1 && rootParent.Data == nil"] ∧
+    Gen.BranchControl.nodeMatchConds =
+      ["len(node.SortOrders) == 0", "ok", "ok", "ok", "node.Data != nil", "len(node.SortOrders) == 0",
+       "len(node.SortOrders) == 1 && node.SortOrders[0] == anyMatch"] := by decide
+
 end DoltVerif.Tie.BranchControl
